@@ -743,6 +743,15 @@ func validateV2Siafunds(ms *MidState, txn types.V2Transaction) error {
 		if err := validateV2SpendPolicy(ms, sigHash, sfi.SatisfiedPolicy, sfi.Parent.SiafundOutput.Address, types.Hash256(sfi.Parent.ID)); err != nil {
 			return fmt.Errorf("siafund input %v %w", i, err)
 		}
+
+		// check that the claim can be computed; the claim start and value of an
+		// ephemeral parent are not compared to the created output before the
+		// ephemeral output hardfork
+		if claim, underflow := ms.siafundTaxRevenue.SubWithUnderflow(sfi.Parent.ClaimStart); underflow {
+			return fmt.Errorf("siafund input %v has claim start (%v) exceeding the siafund pool (%v)", i, sfi.Parent.ClaimStart, ms.siafundTaxRevenue)
+		} else if _, overflow := claim.Div64(ms.base.SiafundCount()).Mul64WithOverflow(sfi.Parent.SiafundOutput.Value); overflow {
+			return fmt.Errorf("siafund input %v has claim that overflows", i)
+		}
 	}
 
 	var inputSum, outputSum uint64
